@@ -55,6 +55,13 @@ def handle (j : Json) : R Json := do
     let ties ← fList natList j "ties"
     let maps := ties.map (fun t => jRouteMap names (routeMap names conn t).1)
     pure <| obj [("maps", Json.arr maps.toArray)]
+  | "checkpoint_trace" =>
+    -- the collectives of Grid.writeH5Dataset with their arguments (the same on every member)
+    let n ← fNatList j "nglobal"
+    let ord ← fNatList j "ord"
+    let file ← fStr j "file"
+    let tr := checkpointTrace true n [] ord file
+    pure <| obj [("trace", Json.arr (tr.map (fun c => obj [("op", Json.str c.op), ("name", Json.str c.name), ("shape", jList (fun x => toJson x) c.shape)])).toArray)]
   | _ => throw s!"unknown op {op}"
 
 def main : IO Unit := serve handle
